@@ -72,6 +72,22 @@ INFO = {
     'C19-get-io-loop-prefers-dask-client': ('a live blocking dask Client and a node created with asynchronous=True', 'get_io_loop under contract'),
     'C20-scatter-retains-after-scatter-await': ('an element with a ref through source.scatter()', '-'),
     'C20-gather-releases-in-finally': ('a grouping node between scatter and gather', '-'),
+    # round 3 ------------------------------------------------------------------------------------------------------------
+    'C01-combine-latest-emit-on-falsy-index': ('combine_latest(..., emit_on=0) and a connect()/disconnect() afterwards', 'contract variants with an explicit emit_on (any value, incl. falsy)'),
+    'C01-emit-iterates-live-downstreams': ('a branch that detaches itself during delivery, with a later sibling', 'obligation: loops iterate over a snapshot, not over the live downstream set'),
+    'C02-map-async-worker-drops-job-on-stop': ('stop()/start() while the worker is parked on the empty queue, then one more element', 'clause "a job taken from the queue is never dropped"'),
+    'C02-partition-timer-armed-with-key-function': ('partition(n, timeout=t, key=...) with a partial batch', 'contracts are checked in full under every property they serve (the clause was tagged C08 only)'),
+    'C03-textfile-awaits-lines-once-per-chunk': ('one read() returning two or more complete lines and an awaitable consumer', 'ghost count of pushed-but-not-awaited records in from_textfile._run'),
+    'C03-rate-limit-returns-emit-result': ('any consumer behind rate_limit that returns an awaitable', 'generic segment clauses "what is emitted is awaited, not returned" / "suspends on what it has just emitted"'),
+    'C04-dask-gather-releases-on-failed-future': ('the dask future reaching gather fails and gather is the last holder', 'failed-future / failed-downstream resume variants for scatter and gather'),
+    'C04-flatten-metadata-with-first-piece': ('a batch of >= 2 pieces with a ref and a buffering node downstream', 'bounded enumeration of flatten (function rewritten wholesale: symbolic contract not applicable, checker error)'),
+    'C05-emit-releases-once-after-loop': ('the downstream set changes while an element is delivered', '-'),
+    'C05-timed-window-unique-release-on-truthy-value': ('keep="last", a duplicate key whose held element is falsy (0, "", ())', '-'),
+    'C08-partition-timeout-zero-falsy': ('partition(n, timeout=0) and fewer than n elements', '-'),
+    'C08-timed-window-emits-live-buffer-when-empty': ('an idle tick followed by arrivals, a consumer that keeps the batch', 'aliasing obligation: the object handed to _emit is not a live container of the node'),
+    'C08-timed-window-unique-first-falsy-value': ('keep="first", a falsy first element for a key, then the same key again', '-'),
+    'C10-sliding-window-skips-empty-metadata-c10': ('n >= 2, an element with metadata followed by >= n elements without', '-'),
+    'C10-flatten-last-piece-by-identity': ('a batch whose last object also occurs earlier in it', 'bounded enumeration of flatten'),
 }
 
 
